@@ -12,7 +12,7 @@ mappings; result, exception class and message, and names afterwards must be equa
 import collections
 import copy
 
-from .. import boot, canon, gen, lang, history, monitors, badsrc
+from .. import boot, canon, gen, lang, history, monitors, badsrc, hooks
 from ..proggen import ProgGen, type_of
 from ..rng import Streams, weighted
 from ..seams import SimKill, TraceKill, ENTROPY
@@ -163,6 +163,7 @@ class Universe:
             self.spaces.append(names)
         self.parser = None if twin else boot.fresh_parser(seams.make_cache(cfg.get('cache')))
         self.suspended = []
+        self.tainted = False
 
     def parser_for_call(self):
         return boot.twin_parser() if self.twin else self.parser
@@ -174,6 +175,19 @@ def _call(U, op, names, kill=None):
     src = op['src']
     ENTROPY.script(op.get('entropy', 0))
     kind = op['op']
+    if not U.twin and kind == 'eval':
+        rec = monitors.Rec()
+        rec.track_kinds = False
+        rec.value_hooks = (hooks.address_taint_hook,)
+        with monitors.recording(rec):
+            out = _call_inner(U, op, names, p, src, kind)
+        if rec.tainted:
+            U.tainted = True
+        return out
+    return _call_inner(U, op, names, p, src, kind)
+
+
+def _call_inner(U, op, names, p, src, kind):
     try:
         if kind == 'eval':
             kw = {}
@@ -305,6 +319,9 @@ def _execute(case, ctx, quiet=False):
         a = _call(A, op, A.spaces[si] if op['op'] == 'eval' else None)
         with boot.pristine_context():
             b = _call(B, op, B.spaces[si] if op['op'] == 'eval' else None)
+        if A.tainted:
+            ctx.stats['stopped_after_address_text'] += 1
+            break           # a program stringified a function: from here on the universes differ by memory addresses only
         ctx.event(step, op['op'], canon.digest(a))
         if a[0] == 'base':
             ctx.report('non_exception_escaped', 'step %d %s %r: %s' % (step, op['op'], op['src'][:160], a), {'kind': 'non_exception_escaped'})
